@@ -67,11 +67,17 @@ def builtin_table(out):
     return n, nontriv
 
 
+from c04guard import insensitive_guard_table
+
+
 def check_C04(tier, seed):
     out, ev, nt, floor = checks.pipeline_check("C04", tier, seed)
     n, nn = builtin_table(out)
     ev += n
     nt += nn
+    ng = insensitive_guard_table(out, tier)
+    ev += ng
+    nt += ng
     if tier == "thorough":
         sanitizer_legs(out, seed)
     return out.finish(ev, nt, checks.RULES["C04"] + " Plus the direct table of the runtime's built-in matchers (every literal / range parameter x every UTF-8 lead byte and boundary code point) under H1; thorough adds Miri / ASan / valgrind legs with hooks off.", floor=floor)
